@@ -1,6 +1,6 @@
 (* C17 — property theorems (statements only; proofs by [exact] of lemmas in Proofs.v). *)
 From Coq Require Import ZArith List Bool Arith Ascii String Sorted.
-From OMV Require Import Base.Val C17.Model C17.Proofs.
+From OMV Require Import Base.Val C17.Model C17.Proofs C17.ProofsSeg.
 Import ListNotations.
 Open Scope string_scope.
 Open Scope list_scope.
@@ -75,3 +75,29 @@ Theorem C17_descendants_order : forall pre cases i c,
   In i (descendants_code pre cases i).
 Proof. exact descendants_order. Qed.
 Print Assumptions C17_descendants_order.
+
+(* The stored coordinate string versus its path components: for coordinates whose names contain no bar, the
+   string of c is a prefix of the string of d ending at a component boundary (end of string or a bar) exactly
+   when c is a path-component prefix of d, counts compared as numbers.  Uses: rendered counts contain no bar
+   and decimal rendering is injective (parse_show). *)
+Theorem C17_coord_boundary_prefix : forall pre c d,
+  c <> [] -> d <> [] -> names_ok c -> names_ok d ->
+  (boundary_prefix (render pre c) (render pre d) <-> comp_prefix c d = true).
+Proof. exact ProofsSeg.coord_boundary_prefix. Qed.
+Print Assumptions C17_coord_boundary_prefix.
+
+Theorem C17_parse_show : forall n, parse (show n) = n.
+Proof. exact ProofsSeg.parse_show. Qed.
+Print Assumptions C17_parse_show.
+
+(* hence the invariant evaluated on every real recording (hier_ok_at) is a pure statement about the stored
+   strings: no case recorded up to the parent extends the parent's string in the middle of a component *)
+Theorem C17_hier_ok_at_iff_boundaries : forall pre cases i c,
+  nth_error cases i = Some c -> c <> [] ->
+  Forall (fun d => d <> [] /\ names_ok d) cases ->
+  (hier_ok_at pre cases i = true <->
+   forall j, (j <= i)%nat ->
+     starts_with (render pre c) (render pre (nth j cases [])) = true ->
+     boundary_prefix (render pre c) (render pre (nth j cases []))).
+Proof. exact ProofsSeg.hier_ok_at_iff_boundaries. Qed.
+Print Assumptions C17_hier_ok_at_iff_boundaries.
